@@ -34,6 +34,34 @@ const ZERO_COPY_THRESHOLD: usize = 4 * 1024;
 
 pub static VOID_IDENT: TStructIdentifier = TStructIdentifier { name: "void" };
 
+/// Validate an element count read from the wire.
+///
+/// A negative count is never valid. When the number of bytes that are left is
+/// known (in-memory readers), the count cannot exceed it either, because every
+/// element occupies at least one byte; callers pre-allocate from this number.
+#[inline]
+pub(crate) fn checked_container_size(
+    size: i32,
+    remaining: Option<usize>,
+) -> Result<usize, ThriftException> {
+    if size < 0 {
+        return Err(new_protocol_exception(
+            ProtocolExceptionKind::NegativeSize,
+            format!("negative container size {}", size),
+        ));
+    }
+    match remaining {
+        Some(remaining) if size as usize > remaining => Err(new_protocol_exception(
+            ProtocolExceptionKind::SizeLimit,
+            format!(
+                "container size {} exceeds the {} remaining bytes",
+                size, remaining
+            ),
+        )),
+        _ => Ok(size as usize),
+    }
+}
+
 pub trait Message: Sized + Send {
     fn encode<T: TOutputProtocol>(&self, protocol: &mut T) -> Result<(), ThriftException>;
 
